@@ -14,6 +14,7 @@ BUDGET = {'quick': 20000, 'thorough': 1000000}
 WALL = {'quick': 100, 'thorough': 1500}
 CHUNK = 50
 STD4 = [['flux_surface', [0, 3, 1, 2]], ['v_parallel', [0, 2, 1, 3]], ['poloidal', [3, 2, 1, 0]]]
+REQUIRED_PROBES = ['restore_after_2plus_layout_changes', 'illegal_op_refused', 'mgr_handler', 'mgr_swapper', 'no_save_memory']
 RULE = ('cases 0..398 (quick; thorough also 399..1196 on two more configurations) = every operation '
         'sequence of length 1-3 over {setLayout x3, overwrite, save, restore, free} on a fixed small '
         'configuration; remaining cases = seeded histories of length 1-25 (biased to save / k layout '
